@@ -283,64 +283,14 @@ pub fn replay_pos(_input: &Value) -> (bool, String) {
 /// Ground obligations for C09 on fixed generators: the trusted-block helper reports the same additions (coin and
 /// hint) and removals as full validation.  Generators are quoted spend lists `(q . ((parent puzzle amount solution)))`
 /// whose puzzle is `(q . conditions)`, one per memo/hint shape.
-pub fn trusted_paths_ground() -> EvalResult {
+fn trusted_check_prog(name: &str, prog: Vec<u8>, res: &mut EvalResult) {
     use chia_bls::Signature;
     use chia_consensus::additions_and_removals::additions_and_removals;
     use chia_consensus::consensus_constants::TEST_CONSTANTS;
     use chia_consensus::flags::ConsensusFlags;
     use chia_consensus::owned_conditions::OwnedSpendBundleConditions;
     use chia_consensus::run_block_generator::run_block_generator2;
-    use clvmr::serde::node_to_bytes;
-    use clvmr::{Allocator, NodePtr};
-    let mut res = EvalResult { obligations: 0, discharged: 0, failures: vec![], samples: vec![], exhaustive: true };
-
-    fn list(a: &mut Allocator, items: &[NodePtr]) -> NodePtr {
-        let mut r = a.nil();
-        for i in items.iter().rev() { r = a.new_pair(*i, r).unwrap(); }
-        r
-    }
-    // memo shapes: (name, builder of the argument tail after the amount)
-    let shapes: Vec<(&str, Box<dyn Fn(&mut Allocator) -> NodePtr>)> = vec![
-        ("no-memo", Box::new(|a| a.nil())),
-        ("hint-32-bytes", Box::new(|a| { let h = a.new_atom(&[9u8; 32]).unwrap(); let m = list(a, &[h]); list(a, &[m]) })),
-        ("hint-short", Box::new(|a| { let h = a.new_atom(&[1, 2, 3]).unwrap(); let m = list(a, &[h]); list(a, &[m]) })),
-        ("hint-33-bytes", Box::new(|a| { let h = a.new_atom(&[9u8; 33]).unwrap(); let m = list(a, &[h]); list(a, &[m]) })),
-        ("empty-first-memo", Box::new(|a| { let h = a.nil(); let m = list(a, &[h]); list(a, &[m]) })),
-        ("empty-memo-list", Box::new(|a| { let m = a.nil(); list(a, &[m]) })),
-        ("memo-is-pair", Box::new(|a| { let x = a.new_atom(&[5]).unwrap(); let p = a.new_pair(x, x).unwrap(); let m = list(a, &[p]); list(a, &[m]) })),
-        ("memo-list-is-atom", Box::new(|a| { let m = a.new_atom(&[7u8; 32]).unwrap(); list(a, &[m]) })),
-        // something after the memo list (accepted without STRICT_ARGS_COUNT): the hint is still the first memo
-        ("hint-then-extra-argument", Box::new(|a| { let h = a.new_atom(&[9u8; 32]).unwrap(); let m = list(a, &[h]); let x = a.new_atom(&[1]).unwrap(); list(a, &[m, x]) })),
-        ("hint-then-improper-terminator", Box::new(|a| { let h = a.new_atom(&[9u8; 32]).unwrap(); let m = list(a, &[h]); let x = a.new_atom(&[1]).unwrap(); a.new_pair(m, x).unwrap() })),
-        ("short-hint-then-two-extras", Box::new(|a| { let h = a.new_atom(&[4]).unwrap(); let m = list(a, &[h]); let x = a.new_atom(&[1]).unwrap(); let y = a.new_atom(&[2u8; 40]).unwrap(); list(a, &[m, x, y]) })),
-        ("hint-1-byte", Box::new(|a| { let h = a.new_atom(&[0]).unwrap(); let m = list(a, &[h]); list(a, &[m]) })),
-        ("hint-31-bytes", Box::new(|a| { let h = a.new_atom(&[8u8; 31]).unwrap(); let m = list(a, &[h]); list(a, &[m]) })),
-        ("hint-and-more-memos", Box::new(|a| { let h = a.new_atom(&[9u8; 32]).unwrap(); let x = a.new_atom(&[6u8; 50]).unwrap(); let p = a.new_pair(x, x).unwrap(); let m = list(a, &[h, x, p]); list(a, &[m]) })),
-        ("memo-list-improper", Box::new(|a| { let h = a.new_atom(&[9u8; 32]).unwrap(); let x = a.new_atom(&[1]).unwrap(); let m = a.new_pair(h, x).unwrap(); list(a, &[m]) })),
-        ("tail-is-atom", Box::new(|a| a.new_atom(&[1]).unwrap())),
-        ("long-first-memo-then-short", Box::new(|a| { let h = a.new_atom(&[9u8; 33]).unwrap(); let x = a.new_atom(&[3]).unwrap(); let m = list(a, &[h, x]); list(a, &[m]) })),
-    ];
-    for (name, build_tail) in shapes {
-        res.obligations += 1;
-        let mut a = Allocator::new();
-        let op = a.new_atom(&[51]).unwrap();
-        let ph = a.new_atom(&[7u8; 32]).unwrap();
-        let amt = a.new_atom(&[1]).unwrap();
-        let tail = build_tail(&mut a);
-        let t2 = a.new_pair(amt, tail).unwrap();
-        let t1 = a.new_pair(ph, t2).unwrap();
-        let cond = a.new_pair(op, t1).unwrap();
-        let conds = list(&mut a, &[cond]);
-        let q = a.new_atom(&[1]).unwrap();
-        let puzzle = a.new_pair(q, conds).unwrap();
-        let parent = a.new_atom(&[3u8; 32]).unwrap();
-        let coin_amount = a.new_atom(&[100]).unwrap();
-        let solution = a.nil();
-        let spend = list(&mut a, &[parent, puzzle, coin_amount, solution]);
-        let spends = list(&mut a, &[spend]);
-        let outer = list(&mut a, &[spends]);
-        let generator = a.new_pair(q, outer).unwrap();
-        let prog = node_to_bytes(&a, generator).unwrap();
+    res.obligations += 1;
         let flags = ConsensusFlags::DONT_VALIDATE_SIGNATURE;
         let blocks: [&[u8]; 0] = [];
         let full = run_block_generator2(&prog, blocks, 11_000_000_000, flags, &Signature::default(), None, &TEST_CONSTANTS);
@@ -358,6 +308,8 @@ pub fn trusted_paths_ground() -> EvalResult {
                 }
                 let got_adds: Vec<_> = adds.iter().map(|(c, h)| (hex::encode(c.puzzle_hash), c.amount, h.as_ref().map(|h| hex::encode(h.as_ref())))).collect();
                 let got_rems: Vec<_> = rems.iter().map(|(id, _)| hex::encode(id)).collect();
+                // (the validated conditions keep a spend's created coins in a hash set: additions are compared as a multiset)
+                let mut got_adds = got_adds; got_adds.sort(); want_adds.sort();
                 if got_adds != want_adds { Err(format!("additions differ: additions_and_removals = {got_adds:?}, validated conditions = {want_adds:?}")) }
                 else if got_rems != want_rems { Err(format!("removals differ: {got_rems:?} vs {want_rems:?}")) }
                 else {
@@ -408,7 +360,137 @@ pub fn trusted_paths_ground() -> EvalResult {
                 "clause": "additions_and_removals == additions/hints of the validated conditions",
                 "cex": {"unit": "eval", "function": "trusted_paths_ground", "input": {"case": name}}})),
         }
+}
+
+pub fn trusted_paths_ground() -> EvalResult {
+    use chia_bls::Signature;
+    use chia_consensus::additions_and_removals::additions_and_removals;
+    use chia_consensus::consensus_constants::TEST_CONSTANTS;
+    use chia_consensus::flags::ConsensusFlags;
+    use chia_consensus::owned_conditions::OwnedSpendBundleConditions;
+    use chia_consensus::run_block_generator::run_block_generator2;
+    use clvmr::serde::node_to_bytes;
+    use clvmr::{Allocator, NodePtr};
+    let mut res = EvalResult { obligations: 0, discharged: 0, failures: vec![], samples: vec![], exhaustive: true };
+
+    fn list(a: &mut Allocator, items: &[NodePtr]) -> NodePtr {
+        let mut r = a.nil();
+        for i in items.iter().rev() { r = a.new_pair(*i, r).unwrap(); }
+        r
+    }
+    // memo shapes: (name, builder of the argument tail after the amount)
+    let shapes: Vec<(&str, Box<dyn Fn(&mut Allocator) -> NodePtr>)> = vec![
+        ("no-memo", Box::new(|a| a.nil())),
+        ("hint-32-bytes", Box::new(|a| { let h = a.new_atom(&[9u8; 32]).unwrap(); let m = list(a, &[h]); list(a, &[m]) })),
+        ("hint-short", Box::new(|a| { let h = a.new_atom(&[1, 2, 3]).unwrap(); let m = list(a, &[h]); list(a, &[m]) })),
+        ("hint-33-bytes", Box::new(|a| { let h = a.new_atom(&[9u8; 33]).unwrap(); let m = list(a, &[h]); list(a, &[m]) })),
+        ("empty-first-memo", Box::new(|a| { let h = a.nil(); let m = list(a, &[h]); list(a, &[m]) })),
+        ("empty-memo-list", Box::new(|a| { let m = a.nil(); list(a, &[m]) })),
+        ("memo-is-pair", Box::new(|a| { let x = a.new_atom(&[5]).unwrap(); let p = a.new_pair(x, x).unwrap(); let m = list(a, &[p]); list(a, &[m]) })),
+        ("memo-list-is-atom", Box::new(|a| { let m = a.new_atom(&[7u8; 32]).unwrap(); list(a, &[m]) })),
+        // something after the memo list (accepted without STRICT_ARGS_COUNT): the hint is still the first memo
+        ("hint-then-extra-argument", Box::new(|a| { let h = a.new_atom(&[9u8; 32]).unwrap(); let m = list(a, &[h]); let x = a.new_atom(&[1]).unwrap(); list(a, &[m, x]) })),
+        ("hint-then-improper-terminator", Box::new(|a| { let h = a.new_atom(&[9u8; 32]).unwrap(); let m = list(a, &[h]); let x = a.new_atom(&[1]).unwrap(); a.new_pair(m, x).unwrap() })),
+        ("short-hint-then-two-extras", Box::new(|a| { let h = a.new_atom(&[4]).unwrap(); let m = list(a, &[h]); let x = a.new_atom(&[1]).unwrap(); let y = a.new_atom(&[2u8; 40]).unwrap(); list(a, &[m, x, y]) })),
+        ("hint-1-byte", Box::new(|a| { let h = a.new_atom(&[0]).unwrap(); let m = list(a, &[h]); list(a, &[m]) })),
+        ("hint-31-bytes", Box::new(|a| { let h = a.new_atom(&[8u8; 31]).unwrap(); let m = list(a, &[h]); list(a, &[m]) })),
+        ("hint-and-more-memos", Box::new(|a| { let h = a.new_atom(&[9u8; 32]).unwrap(); let x = a.new_atom(&[6u8; 50]).unwrap(); let p = a.new_pair(x, x).unwrap(); let m = list(a, &[h, x, p]); list(a, &[m]) })),
+        ("memo-list-improper", Box::new(|a| { let h = a.new_atom(&[9u8; 32]).unwrap(); let x = a.new_atom(&[1]).unwrap(); let m = a.new_pair(h, x).unwrap(); list(a, &[m]) })),
+        ("tail-is-atom", Box::new(|a| a.new_atom(&[1]).unwrap())),
+        ("long-first-memo-then-short", Box::new(|a| { let h = a.new_atom(&[9u8; 33]).unwrap(); let x = a.new_atom(&[3]).unwrap(); let m = list(a, &[h, x]); list(a, &[m]) })),
+    ];
+    for (name, build_tail) in shapes {
+        let mut a = Allocator::new();
+        let op = a.new_atom(&[51]).unwrap();
+        let ph = a.new_atom(&[7u8; 32]).unwrap();
+        let amt = a.new_atom(&[1]).unwrap();
+        let tail = build_tail(&mut a);
+        let t2 = a.new_pair(amt, tail).unwrap();
+        let t1 = a.new_pair(ph, t2).unwrap();
+        let cond = a.new_pair(op, t1).unwrap();
+        let conds = list(&mut a, &[cond]);
+        let q = a.new_atom(&[1]).unwrap();
+        let puzzle = a.new_pair(q, conds).unwrap();
+        let parent = a.new_atom(&[3u8; 32]).unwrap();
+        let coin_amount = a.new_atom(&[100]).unwrap();
+        let solution = a.nil();
+        let spend = list(&mut a, &[parent, puzzle, coin_amount, solution]);
+        let spends = list(&mut a, &[spend]);
+        let outer = list(&mut a, &[spends]);
+        let generator = a.new_pair(q, outer).unwrap();
+        let prog = node_to_bytes(&a, generator).unwrap();
+        trusted_check_prog(name, prog, &mut res);
         if res.samples.len() < 4 { res.samples.push(json!({"obligation": format!("memo shape {name}: fast path == full validation"), "backend": "native-eval"})); }
+    }
+    // block shapes: spends with extension data after the solution, several spends sharing a puzzle, thousands of free conditions
+    {
+        let cc = |a: &mut Allocator, ph: u8, amount: u8| -> NodePtr {
+            let op = a.new_atom(&[51]).unwrap(); let p = a.new_atom(&[ph; 32]).unwrap(); let am = a.new_atom(&[amount]).unwrap();
+            list(a, &[op, p, am])
+        };
+        let spend_of = |a: &mut Allocator, parent: u8, conds: &[NodePtr], extra: u8| -> NodePtr {
+            let q = a.new_atom(&[1]).unwrap();
+            let cl = list(a, conds);
+            let puzzle = a.new_pair(q, cl).unwrap();
+            let par = a.new_atom(&[parent; 32]).unwrap();
+            let amount = a.new_atom(&[100]).unwrap();
+            let solution = a.nil();
+            match extra {
+                0 => list(a, &[par, puzzle, amount, solution]),
+                1 => { let x = a.new_atom(&[0x55]).unwrap(); let y = a.new_atom(&[9u8; 40]).unwrap(); list(a, &[par, puzzle, amount, solution, x, y]) }
+                2 => { let x = a.new_atom(&[5]).unwrap(); let t = a.new_pair(solution, x).unwrap(); let t = a.new_pair(amount, t).unwrap(); let t = a.new_pair(puzzle, t).unwrap(); a.new_pair(par, t).unwrap() }
+                _ => { let x = a.new_atom(&[5]).unwrap(); let p = a.new_pair(x, x).unwrap(); list(a, &[par, puzzle, amount, solution, p]) }
+            }
+        };
+        let finish = |a: &mut Allocator, spends: &[NodePtr]| -> Vec<u8> {
+            let q = a.new_atom(&[1]).unwrap();
+            let sl = list(a, spends);
+            let outer = list(a, &[sl]);
+            let g = a.new_pair(q, outer).unwrap();
+            node_to_bytes(a, g).unwrap()
+        };
+        let mut blocks: Vec<(&str, Vec<u8>)> = vec![];
+        for (nm, extra) in [("spend-with-extension-data", 1u8), ("spend-with-improper-tail", 2), ("spend-with-pair-extension", 3)] {
+            let mut a = Allocator::new();
+            let c1 = cc(&mut a, 7, 1);
+            let s = spend_of(&mut a, 3, &[c1], extra);
+            blocks.push((nm, finish(&mut a, &[s])));
+        }
+        {
+            let mut a = Allocator::new();
+            let c1 = cc(&mut a, 7, 1); let c2 = cc(&mut a, 8, 2); let c3 = cc(&mut a, 9, 3);
+            let s1 = spend_of(&mut a, 3, &[c1], 0); let s2 = spend_of(&mut a, 4, &[c2], 1); let s3 = spend_of(&mut a, 5, &[c3], 0);
+            blocks.push(("three-spends-middle-with-extension", finish(&mut a, &[s1, s2, s3])));
+        }
+        {
+            let mut a = Allocator::new();
+            let c1 = cc(&mut a, 7, 1);
+            let s1 = spend_of(&mut a, 3, &[c1], 0); let s2 = spend_of(&mut a, 4, &[c1], 0); let s3 = spend_of(&mut a, 5, &[c1], 0);
+            blocks.push(("three-spends-one-puzzle", finish(&mut a, &[s1, s2, s3])));
+        }
+        {
+            // 9000 REMARK conditions (opcode 1, free) around three CREATE_COINs
+            let mut a = Allocator::new();
+            let remark = { let op = a.new_atom(&[1]).unwrap(); list(&mut a, &[op]) };
+            let mut conds = vec![cc(&mut a, 7, 1)];
+            for _ in 0..4500 { conds.push(remark); }
+            conds.push(cc(&mut a, 8, 2));
+            for _ in 0..4500 { conds.push(remark); }
+            conds.push(cc(&mut a, 9, 3));
+            let s = spend_of(&mut a, 3, &conds, 0);
+            blocks.push(("nine-thousand-free-conditions", finish(&mut a, &[s])));
+        }
+        {
+            // 9000 one-argument assertions that hold (ASSERT_MY_AMOUNT) and an announcement pair
+            let mut a = Allocator::new();
+            let my_amount = { let op = a.new_atom(&[73]).unwrap(); let v = a.new_atom(&[100]).unwrap(); list(&mut a, &[op, v]) };
+            let mut conds = vec![];
+            for _ in 0..9000 { conds.push(my_amount); }
+            conds.push(cc(&mut a, 7, 1));
+            let s = spend_of(&mut a, 3, &conds, 0);
+            blocks.push(("nine-thousand-assertions", finish(&mut a, &[s])));
+        }
+        for (nm, prog) in blocks { trusted_check_prog(nm, prog, &mut res); }
     }
     res
 }
@@ -814,6 +896,8 @@ pub fn run(task: &str) -> Option<EvalResult> {
         "paths_ground" => Some(crate::paths::paths_ground()),
         "merkle_ground" => Some(crate::merkle::merkle_ground(false)),
         "merkle_ground:thorough" => Some(crate::merkle::merkle_ground(true)),
+        "roundtrip_ground" => Some(crate::roundtrip::roundtrip_ground(false)),
+        "roundtrip_ground:thorough" => Some(crate::roundtrip::roundtrip_ground(true)),
         "pos_v2_hash" => Some(pos_v2_hash()),
         "datalayer_ground" => Some(datalayer_ground()),
         "bls_cache_ground" => Some(bls_cache_ground()),
